@@ -522,8 +522,8 @@ func (ex *Exec) concretize(t *Term, lo, hi int64, what string) int64 {
 		panic(pathPruned{"empty concretisation range"})
 	}
 	n := int(hi - lo + 1)
-	if n > 4096 {
-		panic(abortf("concretize %s: range too large (%d)", what, n))
+	if n > 1<<20 || n <= 0 {
+		n = 1 << 20
 	}
 	w := t.S.W
 	if len(ex.bind) > 0 {
@@ -548,6 +548,9 @@ func (ex *Exec) concretize(t *Term, lo, hi int64, what string) int64 {
 		var vals []int64
 		var models []map[string]uint64
 		for len(vals) < n {
+			if len(vals) > 4096 {
+				panic(abortf("concretize %s: more than 4096 feasible values", what))
+			}
 			var want []*Term
 			for _, nd := range ex.nondets {
 				want = append(want, nd.T)
